@@ -8,6 +8,8 @@ CONSTANTS
   IdemCheck = TRUE
   WaitPos = TRUE
   FwdFirst = TRUE
+  MaxDrop = 0
+  DropExcluded = TRUE
   ExpiryUnlocks = TRUE
   MaxTx = 3
   MaxFaults = 0
